@@ -315,8 +315,9 @@ Acc(e) ==
     [] e = "golang" -> GolangAcc
     [] OTHER -> {"END"}
 
-\* alpm: 1 = explicit pkgrel, 0 = none.  (pkgrel = text after the last "-")
-Part(e, text) == IF e = "alpm" /\ LastIndexOf(S2C(text), 45) > 0 THEN 1 ELSE 0
+\* alpm: 1 = explicit pkgrel, 0 = none.  (pkgrel = the digits after a final "-", go-univers' reading: Alpm!ASplit)
+Part(e, text) == IF e = "alpm" /\ (LET cs == S2C(text)  h == LastIndexOf(cs, 45) IN
+                                   h > 0 /\ h < Len(cs) /\ \A i \in h + 1..Len(cs) : IsDigit(cs[i])) THEN 1 ELSE 0
 
 -----------------------------------------------------------------------------
 (* The automaton.                                                            *)
